@@ -847,6 +847,12 @@ class DistributedShampoo(torch.optim.Optimizer):
                     masked_filtered_grad_list,
                     bias_correction1,
                 )
+            elif beta3 == beta1:
+                # masked_filtered_grad_list is the filtered gradient state itself here; copy it so that
+                # later in-place operations on the search directions cannot modify the optimizer state.
+                masked_filtered_grad_list = tuple(
+                    filtered_grad.clone() for filtered_grad in masked_filtered_grad_list
+                )
         else:
             masked_filtered_grad_list = state_lists[MASKED_BLOCKED_GRADS]
 
